@@ -910,6 +910,10 @@ def mon_C12(sc, trace):
                 k = next(i for i in range(len(got)) if got[i] != want[i])
                 v.append("C12: node %d telemetry #%d at %r, the mobility updates are at %s (consecutive multiples of %r)"
                          % (n, k, got[k], want[max(0, k - 1):k + 2], rate))
+    for l in trace:
+        if l.startswith("stale "):
+            v.append("C12: node %s" % l[len("stale "):])
+            break
     counts = [len(times[n]) for n in range(nn)]
     # a run that ended by reaching its duration has executed every update due by then (0 + i, (0 + i) + i, ...):
     # each node got exactly that many telemetry callbacks
